@@ -43,3 +43,138 @@ if __name__ == '__main__':
     r = run_unit_tests(verbose=True)
     ok = sum(1 for v in r.values() if v == 'pass')
     print('%d/%d unit tests pass inside mirsym (%.1fs)' % (ok, len(r), time.time() - t0))
+
+
+# ----------------------------------------------------------------------------- fixtures: native vs spec vs mirsym (concrete)
+
+def _load_tree(env, root, prefix=b'/w'):
+    for dp, dn, fn in os.walk(root):
+        rel = os.path.relpath(dp, root)
+        d = prefix if rel == '.' else prefix + b'/' + rel.encode()
+        env.add_dir(d)
+        for f in fn:
+            env.add_file(d + b'/' + f.encode(), open(os.path.join(dp, f), 'rb').read())
+
+
+class RealEnvSpec:
+    """spec environment backed by a real directory (concrete validation only)"""
+    def __init__(self, workdir, srcfile):
+        self.workdir = workdir
+        self.srcfile = srcfile
+        self.temps = {}
+
+    def include(self, ctx, arg):
+        p = os.path.join(self.workdir, bytes(arg).decode())
+        try:
+            return tuple(open(p, 'rb').read())
+        except OSError:
+            return None
+
+    def run(self, ctx, cmd):
+        import subprocess
+        e = dict(os.environ)
+        e['TXTPP_FILE'] = self.srcfile
+        r = subprocess.run(['sh', '-c', bytes(cmd).decode()], cwd=self.workdir, env=e, stdout=subprocess.PIPE, stderr=subprocess.PIPE)
+        if r.returncode != 0:
+            return None
+        return tuple(r.stdout.decode('utf8', 'replace').encode())
+
+    def is_txtpp_name(self, ctx, arg):
+        from spec.names import is_txtpp_name
+        return is_txtpp_name(ctx, tuple(arg))
+
+    def write_temp(self, ctx, arg, content):
+        self.temps[bytes(arg)] = bytes(content)
+
+
+def run_fixtures(verbose=False):
+    import shutil, subprocess, tempfile
+    from props.common import ConcreteCtx
+    from spec import pp as specpp
+    repo = build.copy_repo()
+    e = build._env('target-replay')
+    r = subprocess.run(['cargo', 'build', '--offline'], cwd=repo, env=e, stdout=subprocess.PIPE, stderr=subprocess.PIPE, text=True)
+    if r.returncode != 0:
+        raise RuntimeError('cli build failed: ' + r.stderr[-2000:])
+    cli = os.path.join(build.CACHE, 'target-replay', 'debug', 'txtpp')
+    m = build.machine()
+    pre = m.free['preprocess']
+    ex_root = os.path.join(repo, 'tests', 'examples')
+    results = []
+    tmp = tempfile.mkdtemp(prefix='fx-', dir=build.scratch_dir())
+    for dp, dn, fn in sorted(os.walk(ex_root)):
+        for f in sorted(fn):
+            if not (f.endswith('.txtpp') or '.txtpp.' in f):
+                continue
+            if 'windows' in dp:
+                continue
+            top = dp
+            # fixture root = first level under examples that holds this file's project
+            rel = os.path.relpath(dp, ex_root).split(os.sep)
+            work = os.path.join(tmp, 'w')
+            shutil.rmtree(work, ignore_errors=True)
+            shutil.copytree(dp, work)
+            src = os.path.join(work, f)
+            nat = subprocess.run([cli, '-q', f], cwd=work, stdout=subprocess.PIPE, stderr=subprocess.PIPE)
+            nat_ok = nat.returncode == 0
+            outname = _out_name(f)
+            nat_out = open(os.path.join(work, outname), 'rb').read() if nat_ok and os.path.exists(os.path.join(work, outname)) else None
+            content = open(src, 'rb').read()
+            # ---- spec
+            cc = ConcreteCtx()
+            senv = RealEnvSpec(work, f)
+            try:
+                sres = specpp.process(cc, tuple(content), senv, True)
+                spec_ok, spec_out = sres.ok, bytes(sres.output)
+            except Exception as ex_:
+                spec_ok, spec_out = None, repr(ex_).encode()
+            # ---- mirsym (concrete), from a tree where dependencies are already built natively
+            def h(ctx):
+                from mirsym.values import StructV, VecV, RefV, EnumV, str_of
+                it = Interp(m, ctx)
+                env = Env(it, cwd=b'/w')
+                it.env = env
+                _load_tree(env, work)
+                env.add_file(b'/bin/sh', b'')
+
+                def proc(it_, rec):
+                    import subprocess as sp
+                    ee = dict(os.environ)
+                    for k, v in rec['env']:
+                        ee[bytes(k.b).decode()] = bytes(v.b).decode()
+                    cwd = bytes(rec['cwd'].b).decode() if rec['cwd'] is not None else '.'
+                    if cwd == '/w' or cwd.startswith('/w/'):
+                        cwd = work + cwd[2:]
+                    rr = sp.run(['sh'] + [bytes(a.b).decode() for a in rec['args']], cwd=os.path.join(work, cwd), env=ee,
+                                stdout=sp.PIPE, stderr=sp.PIPE)
+                    return (rr.returncode, rr.stdout, rr.stderr)
+                env.proc_handler = proc
+                shell = StructV('Shell', (str_of('/bin/sh'), VecV((str_of('-c'),))))
+                fpath = StructV('AbsPath', (str_of('/w'), str_of('/w/' + f)))
+                modes = m.src.enums['Mode']
+                r_ = it.call_mir(pre, [RefV(it.alloc(shell)), RefV(it.alloc(fpath)), EnumV('Mode', 'Build', modes.index('Build'), ()), False, True])
+                ctx.notes['ok'] = (r_.idx == 0)
+                o = env.read_file(b'/w/' + outname.encode())
+                ctx.notes['out'] = bytes(o) if o is not None else None
+            exq = Explorer(h)
+            ctx = exq.run_path(())
+            mir_ok = ctx.notes.get('ok')
+            mir_out = ctx.notes.get('out')
+            rec = {'file': os.path.relpath(src, tmp), 'dir': os.path.relpath(dp, ex_root), 'native_ok': nat_ok,
+                   'spec_ok': spec_ok, 'mirsym_ok': mir_ok,
+                   'spec_matches_native': (spec_ok == nat_ok) and (not nat_ok or spec_out == nat_out),
+                   'mirsym_matches_native': (mir_ok == nat_ok) and (not nat_ok or mir_out == nat_out),
+                   'inconclusive': list(exq.inconclusive)}
+            results.append(rec)
+            if verbose and not (rec['spec_matches_native'] and rec['mirsym_matches_native']):
+                print(rec)
+                if nat_ok:
+                    print('  native:', nat_out, '\n  spec:  ', spec_out, '\n  mirsym:', mir_out)
+    return results
+
+
+def _out_name(f):
+    if f.endswith('.txtpp'):
+        return f[:-len('.txtpp')]
+    i = f.rindex('.txtpp.')
+    return f[:i] + f[i + len('.txtpp'):]
